@@ -171,9 +171,8 @@ impl<F: WithSmallOrderMulGroup<3> + SerdeObject> ProvingKey<F> {
 impl<F: PrimeField> ProvingKey<F> {
     /// Gets the total number of bytes in the serialization of `self`
     pub(super) fn bytes_length(&self) -> usize {
+        // `write` emits the permutations only; `polys` and `cosets` are recomputed by `read`
         polynomial_slice_byte_length(&self.permutations)
-            + polynomial_slice_byte_length(&self.polys)
-            + polynomial_slice_byte_length(&self.cosets)
     }
 }
 #[derive(Debug)]
